@@ -16,6 +16,10 @@
      4 / 116   reclaim on hierarchical queues: a placement leaves the leaf and every ancestor within
                its realCapability; the plugin's ledger equals the recomputed sum (ReclaimLaw.v)
      5 / 117   a vote changes neither the stored ancestors nor a later vote (AliasModel.v)
+     6 / 118   the real preempt action with topology-aware preemption on hierarchical capacity:
+               a pipelined preemptor's queue is Open and the chain is within capability (EnqueueLaw.v)
+     7 / 119   JobEnqueueable votes and the real enqueue action against amounts recomputed from the
+               PodGroups and pods (EnqueueLaw.v)
 
    wire format of a vote case (sel 2 / 3):
      L  (L tokens: the cluster spec the Go side rebuilt the session from; skipped here)
@@ -26,7 +30,7 @@
    output: per phase -101, then per query  -(110 + kind)  answer. *)
 From stdpp Require Import gmap.
 From Coq Require Import ZArith List.
-From V Require Import Base.Codec Base.Res Base.ResCodec Sched.CycleEntry C03.CapacityModel C03.ReclaimLaw C03.AliasModel.
+From V Require Import Base.Codec Base.Res Base.ResCodec Sched.CycleEntry C03.CapacityModel C03.ReclaimLaw C03.AliasModel C03.EnqueueLaw.
 Import ListNotations.
 Open Scope Z_scope.
 
@@ -143,6 +147,10 @@ Definition entry (sel : Z) (toks : list Z) : list Z :=
          | None => bad_input end
   | 4 => eBool (Nat.eqb (length toks) 8)
   | 5 => eBool (Nat.eqb (length toks) 5)
+  | 6 => eBool (Nat.eqb (length toks) 8)
+  | 7 => eBool (match toks with _ :: _ :: _ => true | _ => false end)
+  | 118 => match law_preempt toks with Some b => eBool b | None => bad_input end
+  | 119 => match law_enqueue_toks toks with Some b => eBool b | None => bad_input end
   | 116 => match law_reclaim toks with Some b => eBool b | None => bad_input end
   | 117 => match law_alias toks with Some b => eBool b | None => bad_input end
   | 110 => law_entry law_110 toks
